@@ -31,6 +31,21 @@ def quiet():
     warnings.simplefilter("ignore")
 
 
+import contextlib
+
+
+@contextlib.contextmanager
+def app_warnings():
+    """Run repository *application* code under the filter the CLI runs under (baseclass.py executes
+    warnings.simplefilter("error", RuntimeWarning) at import), then restore the harness' quiet filter."""
+    with warnings.catch_warnings():
+        warnings.resetwarnings()
+        warnings.simplefilter("ignore")
+        warnings.simplefilter("error", RuntimeWarning)
+        yield
+    quiet()
+
+
 def setup():
     """Warm the numba cache for the current /repo tree (used by MANIFEST.setup_cmd)."""
     import importlib
